@@ -151,6 +151,10 @@ pub trait Check: Sync {
     fn assumptions(&self) -> Vec<String>;
     fn components(&self) -> J;
     fn exhaustive_dimensions(&self) -> Vec<String>;
+    /// whether two violation classes count as "the same violation" for the minimiser
+    fn same_class(&self, a: &str, b: &str) -> bool {
+        a == b
+    }
     /// whether a stuck call is this property's violation (C01) or a harness error
     fn hang_is_violation(&self) -> bool {
         false
@@ -310,7 +314,7 @@ pub fn minimise(check: &dyn Check, case: &J, class: &str, budget: usize) -> (J, 
             }
             spent += 1;
             if let Ok(Some((c, _))) = check.replay(&cand, None) {
-                if c == class {
+                if check.same_class(&c, class) {
                     cur = cand;
                     progress = true;
                     break;
